@@ -1,4 +1,5 @@
 import ConjureVerif.Lemmas.LogSafety
+import ConjureVerif.Gen.CodegenContextSrc
 /-
 C08 — An argument is generated safe-to-log exactly when all it can hold is safe.
 
@@ -23,6 +24,20 @@ def ArgSpec (defs : List Def) (a : Arg) : Prop :=
   | none => a.legacySafe = true ∨ SpecSafeTy defs a.ty
 
 def ArgInRange (defs : List Def) (a : Arg) : Prop := ∀ c ∈ (tyParts a.ty).2, c < defs.length
+
+/-- the generator's log-safety code this model transcribes (conjure-codegen/src/context.rs): an explicit `safety`
+wins, then the legacy tag `safe` or the marker `com.palantir.logsafe.Safe` (that package *and* that name), then the
+type; references are answered through the per-type cache with the provisional value for types in progress, and only
+outermost results are kept -/
+theorem gen_log_safety_sources :
+    Gen.CodegenContextSrc.hashes.lookup "Context::is_safe_arg" = some 15728673171295917919 /- "{ifletSome(log_safety)=arg.safety(){return*log_safety==LogSafety::Safe;}ifself.is_legacy_safe_arg(arg){returntrue;}self.type_log_safety(arg.type_())==Some(LogSafety::Safe)}" -/ ∧
+    Gen.CodegenContextSrc.hashes.lookup "Context::is_legacy_safe_arg" = some 15400573452224657344 /- "{arg.tags().iter().any(|s|s==\"safe\")||arg.markers().iter().any(|a|self.is_legacy_safe_marker(a))}" -/ ∧
+    Gen.CodegenContextSrc.hashes.lookup "Context::is_legacy_safe_marker" = some 6288601637347088960 /- "{matchty{Type::External(def)=>{letname=def.external_reference();name.package()==\"com.palantir.logsafe\"&&name.name()==\"Safe\"}_=>false,}}" -/ ∧
+    Gen.CodegenContextSrc.hashes.lookup "Context::type_log_safety" = some 2249949754606802379 /- "{matchty{Type::Primitive(primitive)=>self.primitive_log_safety(primitive),Type::Optional(optional)=>self.type_log_safety(optional.item_type()),Type::List(list)=>self.type_log_safety(list.item_type()),Type::Set(set)=>self.type_log_safety(set.item_type()),Type::Map(map)=>self.combine_safety(self.type_log_safety(map.key_type()),self.type_log_safety(map.value_type()),),Type::Reference(def)=>self.type_log_safety_ref(def),Type::External(_)=>None,}}" -/ ∧
+    Gen.CodegenContextSrc.hashes.lookup "Context::primitive_log_safety" = some 16586713137089024308 /- "{matchprimitive{PrimitiveType::Bearertoken=>Some(LogSafety::DoNotLog),_=>None,}}" -/ ∧
+    Gen.CodegenContextSrc.hashes.lookup "Context::type_log_safety_ref" = some 2408916342373956172 /- "{letctx=&self.types[name];match&*ctx.log_safety.borrow(){CachedLogSafety::Computed(safety)=>returnsafety.clone(),CachedLogSafety::InProgress=>returnSome(LogSafety::Safe),CachedLogSafety::Uncomputed=>{}}*ctx.log_safety.borrow_mut()=CachedLogSafety::InProgress;letdepth=self.log_safety_depth.get();self.log_safety_depth.set(depth+1);letsafety=match&ctx.def{TypeDefinition::Alias(alias)=>alias.safety().cloned().or_else(||self.type_log_safety(alias.alias())),TypeDefinition::Enum(_)=>Some(LogSafety::Safe),TypeDefinition::Object(object)=>object.fields().iter().map(|f|{f.safety().cloned().or_else(||self.type_log_safety(f.type_()))}).try_fold(LogSafety::Safe,|a,b|self.combine_safety(Some(a),b)),TypeDefinition::Union(union_)=>union_.union_().iter().map(|f|{f.safety().cloned().or_else(||self.type_log_safety(f.type_()))}).fold(None,|a,b|self.combine_safety(a,b)),};self.log_safety_depth.set(depth);*ctx.log_safety.borrow_mut()=ifdepth==0{CachedLogSafety::Computed(safety.clone())}else{CachedLogSafety::Uncomputed};safety}" -/ ∧
+    Gen.CodegenContextSrc.hashes.lookup "Context::combine_safety" = some 15411564170362202506 /- "{match(a,b){(Some(LogSafety::DoNotLog),_)|(_,Some(LogSafety::DoNotLog))=>{Some(LogSafety::DoNotLog)}(Some(LogSafety::Unsafe),_)|(_,Some(LogSafety::Unsafe))=>Some(LogSafety::Unsafe),(Some(LogSafety::Safe),Some(LogSafety::Safe))=>Some(LogSafety::Safe),(Some(LogSafety::Safe),None)|(None,Some(LogSafety::Safe))|(None,None)=>None,}}" -/ := by
+  decide +kernel
 
 /-- the rules for the building blocks, as the statement lists them -/
 theorem C08_rules :
